@@ -9,6 +9,8 @@ CONSTANTS
   MaxSegs = 3
   Pool <- PoolQuick
   MaxParts = 5
+  Pool2 <- PoolNone
+  MaxParts2 = 0
   MetaAlphabet = {58, 61, 97, 48}
   MaxMeta = 6
   MetaRuns = {59, 60, 61, 62, 63}
